@@ -232,12 +232,23 @@ def make_stub_estimator():
             self.gen = gen
             self.support_partial = support_partial
 
+        @staticmethod
+        def _check_targets(y):
+            # scikit-learn's check_classification_targets: an object array that holds numbers is of "unknown" label type
+            a = arrays.asnd(y)
+            if a._dt == object and len(arrays.raw(a)) and all(isinstance(v, (int, float, np.integer, np.floating)) and not isinstance(v, bool)
+                                                             for v in arrays.raw(a).reshape(-1)):
+                raise ValueError("Unknown label type: unknown. Maybe you are trying to fit a classifier, which expects discrete "
+                                 "classes on a regression target with continuous values.")
+
         def fit(self, X, y, sample_weight=None):
+            self._check_targets(y)
             self.fit_log_ = [(X, y, sample_weight)]
             self.classes_ = F.unique(y)
             return self
 
         def partial_fit(self, X, y, classes=None, sample_weight=None):
+            self._check_targets(y)
             self.fit_log_ = getattr(self, "fit_log_", []) + [(X, y, sample_weight)]
             if not hasattr(self, "classes_"):
                 self.classes_ = F.unique(classes)
